@@ -90,7 +90,12 @@ class Obs:
     __slots__ = ("res", "vk", "root", "rows", "choices", "trace", "cost", "scn")
 
 
-def execute(scn, prefix=(), keep_root=False, tracer=None, strict=False, name="proj", allow_unconsumed=False, timeout=None):
+class Hang(Exception):
+    """The command blocked (outside any kernel call the virtual kernel schedules) until the watchdog let the virtual
+    children die: with well-behaved long-running tasks it would have blocked for as long as they run."""
+
+
+def execute(scn, prefix=(), keep_root=False, tracer=None, strict=False, name="proj", allow_unconsumed=False, timeout=10):
     files = scn["files"]
     root = driver.fresh_project(files, name=name, config=scn.get("config", ""),
                                 index_rows=[tuple(r) for r in scn["index_rows"]] if scn.get("index_rows") is not None else None,
@@ -104,7 +109,10 @@ def execute(scn, prefix=(), keep_root=False, tracer=None, strict=False, name="pr
     res = driver.run_cli(scn["argv"], cwd, vk=vk, git=git, clock=clock, tracer=tracer, timeout=timeout)
     if isinstance(res.exc, (vkmod.HarnessError,)) and not isinstance(res.exc, (vkmod.Deadlock, vkmod.Horizon)):
         raise res.exc
-    if not ch.fully_consumed() and not allow_unconsumed:
+    if res.timed_out and res.exc is None:
+        res.exc = Hang("cond blocked for %s s waiting on something only a task's exit could provide (not in a kernel call)" % timeout)
+        res.exit = "EXC"
+    if not ch.fully_consumed() and not allow_unconsumed and not res.timed_out:
         raise vkmod.HarnessError("replay divergence: %d of %d recorded choices were never asked for"
                                  % (len(ch.prefix) - ch.i, len(ch.prefix)))
     o = Obs()
